@@ -17,6 +17,7 @@ package eval
 import (
 	"encoding/binary"
 	"fmt"
+	"os"
 	"strings"
 	"testing"
 
@@ -250,6 +251,15 @@ func TestVerifC28Eval(t *testing.T) {
 	lines, replay := vh.ReplayOps()
 	if !replay {
 		lines = verifC28EvalGenerate(vh.Seed(), vh.Budget(60, 1500))
+		if b, err := os.ReadFile(os.Getenv("VERIF_C28_EVAL_CORPUS")); err == nil { // corpus/C28/eval.ops, run first
+			var c []string
+			for _, l := range strings.Split(string(b), "\n") {
+				if strings.TrimSpace(l) != "" && !strings.HasPrefix(l, "#") {
+					c = append(c, l)
+				}
+			}
+			lines = append(c, lines...)
+		}
 	}
 	st := &verifC28EvalState{t: t}
 	for _, l := range lines {
